@@ -43,9 +43,13 @@ ExpLib(f, o) ==
     ELSE IF IsLaned(f) /\ o.merge > 0 THEN Join(FirstN(Lib1T(f, o), o.merge), "_")
     ELSE Lib1(f, o)
 
-(* named deviations of the code as found on 2026-09-28 (see docs/X03.md); used by the design model  *)
-(* as negative controls and by the trace spec to give a mismatch a specific signature             *)
-Dev(V, d) == V = d \/ V = "impl"
+(* named deviations of the code (see docs/X03.md); used by the design model as negative controls   *)
+(* and by the trace spec to give a mismatch a specific signature.                                  *)
+(*   "impl"         = the deviations still in the code (D301, D302, D304: not repaired, known)      *)
+(*   "impl_asfound" = all deviations found on 2026-09-28 (D300 and D303 have been repaired since:   *)
+(*                    their controls stay, a regression is an unexplained mismatch = VIOLATION)     *)
+ImplNow == {"merge_nojoin", "slib_suffix", "slib_merged"}
+Dev(V, d) == V = d \/ (V = "impl" /\ d \in ImplNow) \/ V = "impl_asfound"
 DevLib(f, o, V) ==
     LET rp == IF Dev(V, "replace_verbose") /\ o.verbose /\ o.replace # <<>> THEN <<>> ELSE o.replace   \* D300: list rebound
         t1 == ReplTok(f.lib, rp)
